@@ -36,6 +36,33 @@ CLAIMED = True
 COQ_MODULES = ["Stats", "C10_Model", "C10_Check", "C10_Proofs", "C10_Process"]
 PROPERTY_MODULE = "C10_Property"
 ALLOWED_AXIOMS = []
+# Translation validation (harness/README.md): the two statements that turn --seed into a generator - the seed guard of
+# simulate_gt (the top-level `if` whose body calls np.random.seed: `if seed is not None:` after fix add5f9b, `if seed:` in
+# the pinned tree) and `self.rng = np.random.default_rng(seed)` in PhenoSimulator.__init__ - are regenerated from the
+# current source on every run (harness/pytrans.py -> HVG.Gen_Seed) and proved equal to C10_Model.guard_fires false /
+# start_state false and pheno_rng for all seeds (coq/translated/TV_C10.v); numpy's two functions are externals.
+TRANSLATION = {
+    "spec": {
+        "module": "Gen_Seed",
+        # np.random.seed(a) acts on the process-global generator: "$gen" := exts_np_random_seed [$gen; a]
+        "state_calls": {"np.random.seed": "$gen"},
+        "ext_dotted": ["np.random.default_rng"],
+        "ignore_calls": ["log.info"],
+        "functions": [
+            ("haptools/sim_genotype.py", "simulate_gt", {
+                "name": "simulate_gt_seed_guard", "top": True,
+                "start": {"if_body_calls": "np.random.seed"}, "stop": {"single": True},
+                "params": ["seed"], "result": None}),
+            ("haptools/sim_phenotype.py", "__init__", {
+                "name": "pheno_init_rng", "top": True, "in_class": "PhenoSimulator",
+                "start": {"attr_assign": "rng"}, "stop": {"single": True},
+                "params": ["seed"], "result": "self_rng", "self_stores": {"rng": "self_rng"},
+                "class_chain": [("haptools/sim_phenotype.py", "PhenoSimulator")]}),
+        ],
+    },
+    "models": ["TVM_C10"],
+    "proofs": ["TV_C10"],
+}
 RULE = (
     "a double run is non-trivial when a seed is given, both runs completed and the two runs started from "
     "different process states (different global generator positions; different generated histories of numpy "
@@ -1435,7 +1462,122 @@ class ReplicatesRel(Relation):
                 + (" [case/control]" if inp["prevalence"] is not None else ""))
 
 
-RELATIONS = [GenotypeRel(), PhenotypeRel(), ReplicatesRel()]
+class TVGuard(Relation):
+    """The two seed statements run for real with numpy's functions replaced by recorders: simulate_gt(..., seed=s) on a
+    model file that does not exist (the guard is the first statement; open() then raises) records the arguments of
+    np.random.seed; PhenoSimulator(genotypes, seed=s) records the argument of np.random.default_rng and whether self.rng
+    is what it returned.  agree = the statements as translated from the current source, interpreted with recording
+    externals, make the same calls (and C10_Model.guard_fires false predicts them).  holds is not judged here."""
+    name = "tv_guard"
+    coq_lib = "HVG"
+    coq_module = "TVM_C10"
+    coq_check = "check_tv_guard"
+    coq_case_type = "tgcase"
+    coq_model = "tv_model_guard"
+    coq_imports = ["C10_Model"]
+    budget = {"quick": 12, "thorough": 200}
+    anchors = [("haptools/sim_genotype.py", "simulate_gt"), ("haptools/sim_phenotype.py", "PhenoSimulator.__init__")]
+    SEEDS = [None, 0, 1, 42, 2**31 - 1, 2**32 - 1]
+
+    def generate(self, rng, n, tier):
+        out = [{"seed": s} for s in self.SEEDS]
+        while len(out) < n:
+            out.append({"seed": int(rng.integers(0, 2**32))})
+        return out[:max(n, len(self.SEEDS))]
+
+    def exhaustive(self, tier):
+        return [{"seed": s} for s in self.SEEDS + [2, 7, 255, 256, 65535, 65536]]
+
+    def run_impl(self, inp):
+        import logging
+        import types
+        from pathlib import Path
+
+        import haptools.sim_genotype as sg
+        import haptools.sim_phenotype as sp
+
+        seed = inp["seed"]
+        log = logging.getLogger("hv_c10_tv")
+        log.addHandler(logging.NullHandler())
+        log.propagate = False
+        seeds, rngs = [], []
+        token = object()
+        saved = (np.random.seed, np.random.default_rng)
+
+        def rec_seed(*a, **k):
+            seeds.append([a, k])
+
+        def rec_rng(*a, **k):
+            rngs.append([a, k])
+            return token
+
+        d = tempfile.mkdtemp(prefix="hv_c10_tv_")
+        try:
+            np.random.seed, np.random.default_rng = rec_seed, rec_rng
+            try:
+                sg.simulate_gt(os.path.join(d, "absent.dat"), d, ["1"], None, 10, log, seed)
+                gerr = None
+            except FileNotFoundError:
+                gerr = None         # expected: the model file does not exist; the guard ran before open()
+            except Exception as e:  # noqa
+                gerr = {"err": err_kind(e), "cls": type(e).__name__}
+            n_rng_before = len(rngs)
+            try:
+                ps = sp.PhenoSimulator(types.SimpleNamespace(samples=("s1",)), output=Path(os.path.join(d, "o.pheno")),
+                                       seed=seed, log=log)
+                bound = ps.rng is token
+                perr = None
+            except Exception as e:  # noqa
+                bound, perr = False, {"err": err_kind(e), "cls": type(e).__name__}
+        finally:
+            np.random.seed, np.random.default_rng = saved
+            shutil.rmtree(d, ignore_errors=True)
+
+        def plain(calls):
+            # every call must be f(x) with x an int or None, else the recorder cannot be compared: Unobserved
+            out = []
+            for a, k in calls:
+                if k or len(a) != 1 or not (a[0] is None or (isinstance(a[0], int) and not isinstance(a[0], bool))):
+                    return None
+                out.append(a[0])
+            return out
+
+        return {"seed_calls": plain(seeds), "rng_args": plain(rngs[n_rng_before:]), "bound": bool(bound), "gerr": gerr,
+                "perr": perr, "rng_calls_in_simulate_gt": n_rng_before}
+
+    def encode(self, inp, obs):
+        so = lambda x: L.opt(x, L.z)
+        if "seed_calls" not in obs:
+            return f"(mktg {so(inp['seed'])} (Err 97) (Err 97) false)"
+        sc = (f"(Err {L.z(obs['gerr']['err'])})" if obs["gerr"] else
+              "(Err 97)" if obs["seed_calls"] is None else f"(Ok {L.zl(obs['seed_calls'])})")
+        ra = (f"(Err {L.z(obs['perr']['err'])})" if obs["perr"] else
+              "(Err 97)" if obs["rng_args"] is None else f"(Ok {L.lst(obs['rng_args'], so)})")
+        return f"(mktg {so(inp['seed'])} {sc} {ra} {L.b(obs['bound'])})"
+
+    def nontrivial(self, inp, obs):
+        return inp["seed"] is not None
+
+    def classes(self, inp, obs):
+        s = inp["seed"]
+        return ["seed:none" if s is None else "seed:0" if s == 0 else "seed:positive"]
+
+    def shrink(self, inp):
+        if inp["seed"] not in (None, 0):
+            yield {"seed": 0}
+            yield {"seed": 1}
+
+    def mutate(self, inp, rng):
+        for s in self.SEEDS:
+            if s != inp["seed"]:
+                yield {"seed": s}
+
+    def signature(self, inp, obs):
+        z = "0" if inp["seed"] == 0 else "None" if inp["seed"] is None else "nonzero"
+        return f"tv_guard: the translated seed statements and the real ones make different numpy calls (seed {z})"
+
+
+RELATIONS = [GenotypeRel(), PhenotypeRel(), ReplicatesRel(), TVGuard()]
 
 LEVEL_TEXT = (
     "Coq theorems for EVERY generator (state machine S, reseed, draw) and every program drawing from it: with the "
